@@ -36,6 +36,7 @@ def _targets():
         ("SqrtIswapTargetGateset(additional=CZ)", cirq.SqrtIswapTargetGateset(additional_gates=[cirq.CZ])),
         ("SycamoreTargetGateset()", cirq_google.SycamoreTargetGateset()), ("GoogleCZTargetGateset()", cirq_google.GoogleCZTargetGateset()),
         ("GoogleCZTargetGateset(eject_paulis, additional=Pauli families)", cirq_google.GoogleCZTargetGateset(eject_paulis=True, additional_gates=paulis)),
+        ("GoogleCZTargetGateset(eject_paulis=True)", cirq_google.GoogleCZTargetGateset(eject_paulis=True)),
         ("IonQTargetGateset()", cirq_ionq.IonQTargetGateset()), ("AriaNativeGateset()", cirq_ionq.AriaNativeGateset()), ("ForteNativeGateset()", cirq_ionq.ForteNativeGateset()),
         ("AQTTargetGateset()", aqt_target_gateset.AQTTargetGateset()), ("PasqalGateset()", cirq_pasqal.PasqalGateset()),
         ("PasqalGateset(include_additional_controlled_ops=False)", cirq_pasqal.PasqalGateset(include_additional_controlled_ops=False)),
@@ -126,6 +127,10 @@ def standin_compile(tier, seed):
             n = rng.choice([1, 2, 2, 3, 3, 4])
             tags = i % 3 == 2
             c, qs = _rand_circuit(rng, n, rng.randrange(1, 6), allow3=True, tags=tags)
+            if i == 0 and name == "GoogleCZTargetGateset(eject_paulis=True)":
+                # the recorded input of the known finding, always tried
+                c, tags = cirq.testing.random_circuit(qubits=3, n_moments=8, op_density=0.8, random_state=0), False
+                qs = sorted(c.all_qubits())
             if i % 5 == 4:  # already native: compile the compiled circuit again
                 try:
                     c = cirq.optimize_for_target_gateset(c, gateset=gs, max_num_passes=1)
@@ -156,15 +161,21 @@ def standin_known_ops(tier, seed):
     for fam, e in itertools.product(fams, exps):
         for shift in (0, -0.5):
             op = fam(exponent=e, global_shift=shift).on(*q)
+            # also with the qubits listed in descending order, and on a non-adjacent descending pair next to an idle qubit
+            q3 = cirq.LineQubit.range(3)
+            variants = [(cirq.Circuit(op), q)] + ([(cirq.Circuit(fam(exponent=e, global_shift=shift).on(q[1], q[0])), q), (cirq.Circuit(fam(exponent=e, global_shift=shift).on(q3[2], q3[0]), cirq.I(q3[1])), q3)]
+                                                    if shift == 0 else [])
             for name, gs in _targets():
+              if name == "GoogleCZTargetGateset(eject_paulis=True)":
+                  continue  # its non-native leftovers are a recorded finding of the compile stand-in; not repeated here
+              for c, qq in variants:
                 R.cases += 1
-                c = cirq.Circuit(op)
                 try:
                     out = cirq.optimize_for_target_gateset(c, gateset=gs, max_num_passes=1)
                 except Exception as ex:
                     R.bad(f"optimize_for_target_gateset raised {type(ex).__name__}", target=name, circuit=c)
                     continue
-                _check_compiled(R, name, gs, c, out, q)
+                _check_compiled(R, name, gs, c, out, qq)
             R.cases += 1
             known = cirq_google.known_2q_op_to_sycamore_operations(op)
             if known is not None:
@@ -180,7 +191,7 @@ def standin_known_ops(tier, seed):
         if known is not None and not cirq.allclose_up_to_global_phase(cirq.Circuit(known).unitary(qubit_order=q, qubits_that_should_be_present=q), cirq.unitary(op), atol=1e-6):
             R.bad("known_2q_op_to_sycamore_operations: different unitary (beyond global phase)", operation=op)
     return R.out("cirq-google/cirq_google/transformers/analytical_decompositions/two_qubit_to_sycamore.py:known_2q_op_to_sycamore_operations + vendor decomposers", "known-ops",
-                 "7 two-qubit power families x 13 special exponents x 2 global shifts through every target; FSim grid for the Sycamore table")
+                 "7 two-qubit power families x 13 special exponents x 2 global shifts (and both qubit orders, adjacent and not) through every target; FSim grid for the Sycamore table")
 standin_known_ops.prop = "C07"
 
 
